@@ -102,6 +102,36 @@ class Prop:
                 ctx.fail('single-byte corruption of the body neither rejected nor flagged',
                          {'cmd': 'parse', 'line': l.hex(), 'case': label}, 'rejected or valid=0', o[:200],
                          {'kind': 'subst'})
+        # strict decode() of single corrupted sentences: whenever the line parses and its flag is false, strict
+        # mode must raise the checksum error (not some later error, and not nothing) - digits of the fragment
+        # count / number fields included
+        sops, smeta = [], []
+        for (label, l), o in zip(cases, outs):
+            if label.startswith('subst') and not o.startswith('ERR:') and field(o, 'valid') == '0' and ' ais=1 ' in o:
+                if len(smeta) % (1 if ctx.tier == 'thorough' else 3) == 0 or l[7:11].count(b',') >= 1:
+                    sops.append('decode 1 %s' % l.hex())
+                smeta.append(l)
+        souts = ctx.corr(sops, impl.step, 'decode-strict')
+        for op, o in zip(sops, souts):
+            if o != 'ERR:InvalidNMEAChecksum':
+                ctx.fail('strict mode did not raise the checksum error for a sentence flagged invalid',
+                         {'cmd': 'decode', 'strict': 1, 'lines': [op.split()[2]]}, 'ERR:InvalidNMEAChecksum', o[:200],
+                         {'kind': 'strict-miss'})
+        # a Gatehouse wrapper with a wrong checksum among the arguments of decode()
+        gh = gen.gatehouse()
+        bad_gh = gh[:-2] + (b'00' if gh[-2:] != b'00' else b'01')
+        for parts in ([base['single']], base['two']):
+            for wrapper, bad in ((gh, False), (bad_gh, True)):
+                for pos in range(len(parts) + 1):
+                    args = parts[:pos] + [wrapper] + parts[pos:]
+                    op = 'decode 1 ' + ' '.join(a.hex() for a in args)
+                    o = ctx.corr([op], impl.step, 'decode-strict-gh')[0]
+                    lenient = impl.step('decode 0 ' + ' '.join(a.hex() for a in args))
+                    exp = 'ERR:InvalidNMEAChecksum' if bad else lenient
+                    if o != exp:
+                        ctx.fail('strict mode and an invalid wrapper sentence among the arguments',
+                                 {'cmd': 'decode', 'strict': 1, 'lines': [a.hex() for a in args]}, exp[:200], o[:200],
+                                 {'kind': 'strict-miss' if bad else 'strict-diff'})
         # multi-part: every subset of parts corrupted
         mlines, meta = [], []
         for parts in (base['two'], base['three']):
